@@ -9,12 +9,16 @@ import Driver.ChunkOps
 import Driver.FlattenOps
 import Driver.RngOps
 import Driver.CollectiveOps
+import Driver.SnapshotOps
+import Driver.JsonOps
 open Lean Ts.Drv
 
 namespace Ts.Drv
 
 /-- All registered op handlers; first match wins. -/
 def handlers : List Handler := [
+  JsonOps.handle,
+  SnapshotOps.handle,
   CollectiveOps.handle,
   RngOps.handle,
   FlattenOps.handle,
@@ -28,7 +32,7 @@ def handlers : List Handler := [
 ]
 
 def dispatch (line : String) : Json :=
-  match Json.parse line with
+  match Lean.Json.parse line with
   | .error e => Json.mkObj [("error", s!"parse: {e}")]
   | .ok j =>
     match getStr j "op" with
